@@ -263,8 +263,21 @@ fn inner(plan: &Plan, phase: &AtomicU64) -> Outcome {
     let sh = StreamShared::new(plan.seed);
     sh.delay_per_mille.store(plan.delay_pm, Ordering::Relaxed);
     if plan.err_runs {
+        // runs of I/O errors; in every other such history the entries appended last (the backlog
+        // and everything after it) are all REJECTED by the stream (validation errors): handed over
+        // they were, and the flush after them is owed all the same
         let n = AtomicU64::new(0);
-        sh.set_script(move |_| if (4..9).contains(&(n.fetch_add(1, Ordering::Relaxed) % 12)) { vcommon::stream::Outcome::Io } else { vcommon::stream::Outcome::Ok });
+        let rejected_tail = plan.seed % 4 < 2;
+        sh.set_script(move |k| match k {
+            vcommon::stream::EntryKind::Id(id) if rejected_tail && id_producer(*id) >= 50 => vcommon::stream::Outcome::Validation,
+            _ => {
+                if (4..9).contains(&(n.fetch_add(1, Ordering::Relaxed) % 12)) {
+                    vcommon::stream::Outcome::Io
+                } else {
+                    vcommon::stream::Outcome::Ok
+                }
+            }
+        });
     }
     let total = (plan.clients * plan.per + plan.racers * 4000 + plan.backlog + plan.after + 16) as usize;
     let mut builder = BackgroundQueueBuilder::new()
@@ -418,7 +431,21 @@ fn inner(plan: &Plan, phase: &AtomicU64) -> Outcome {
         }
         phase.store(3, Ordering::SeqCst);
         o.drop_start = ticket();
-        drop(q); // last queue handle
+        if plan.seed % 2 == 0 {
+            // the last TWO queue handles go at the same moment, on two threads
+            let other = q.clone();
+            let gate = Arc::new(Barrier::new(2));
+            let g2 = gate.clone();
+            let t = std::thread::spawn(move || {
+                g2.wait();
+                drop(other);
+            });
+            gate.wait();
+            drop(q);
+            let _ = t.join();
+        } else {
+            drop(q); // last queue handle
+        }
         o.drop_end = ticket();
         if plan.drop_before_release {
             // the writer is still held inside next() / flush(): it finds the last handle gone when it comes back
